@@ -11,6 +11,12 @@ CHECKS = {
  "C14": ("Coq proof (validity, reduction to SHA-1 collision, refutation witness) + T2 differential of the extracted TempDir model vs Task.TempDir + collision/stability/validity monitors",
          "Theorems over all task identities: the name is one valid segment <= 255 bytes; equal names imply equal SHA-1 of the hashed pre-images (nothing assumed about SHA-1); the non-injective pre-image is a refuted lemma and a recorded finding. The executable model is run against the real NewTask(...).TempDir() on exhaustive small and random large identities on every run.",
          "7 C14", ""),
+ "C15": ("Coq proof (scanner = placeholders of a rendered pattern; global Replace acts piece-wise; test vectors; missing values fail) + T2 differential of the extracted Format model vs NewProc/NewTask/Task.Command, SetOut, default path function, applyPathModifiers, port discovery + independent documented-semantics oracle",
+         "Theorems over all structured patterns for the scanner and the substitution step; the executable line-by-line model of formatCommand/applyPathModifiers/port discovery is run against the real functions on a structured and a malformed stream on every run, and the structured stream is also checked against the documented modifier semantics.",
+         "7 C15", ""),
+ "C13": ("Coq proof (temp path contains no ../ and is relative; refutation witnesses for non-canonical shapes) + T1 conformance of FinalizePaths/createDirs/executeCommand + T2 differential on a path grammar + T3 one-task workflows per output-path shape",
+         "Theorems over all path strings for the encoding; skeleton conformance ties the rename source/target to the code; real workflows place a file through {o:..} for every shape of the grammar (plain, new sub-directories, parent-relative, absolute, place-holder-like segments) and check the property statement directly.",
+         "7 C13", ""),
 }
 
 def main():
